@@ -1021,11 +1021,12 @@ func scenarioOnlyFullMemberRead(r *vh.Rand) (string, []string) {
 	return g.c.Header(), g.ops
 }
 
-// scenario 18: a membership change is committed; Replicate messages to follower 2 are delayed,
-// the leader takes a snapshot and compacts, 2 is reported unreachable and is sent the snapshot;
-// the delayed Replicate messages overtake the snapshot, so 2 already holds (and has
-// acknowledged) entries beyond the snapshot index when the matching snapshot arrives while its
-// applied index is still below the membership change.
+// scenario 18: a membership change and a proposal are committed without follower 2, whose
+// Replicate messages are delayed; the leader takes a snapshot and compacts; one more entry is
+// proposed; 2 is reported unreachable and is sent the snapshot; the delayed Replicate messages
+// overtake it: 2 appends and acknowledges everything, the last entry commits with {1,2}; then
+// the matching snapshot arrives while 2's applied index is still below the membership change;
+// finally the leader is gone and 2 campaigns.
 func scenarioMatchingSnapshotBehindLog(r *vh.Rand) (string, []string) {
 	g := newScenarioGen(r, 3, uint64(6+r.Intn(3)), false, false)
 	if !g.elect(1, nil) {
@@ -1033,52 +1034,76 @@ func scenarioMatchingSnapshotBehindLog(r *vh.Rand) (string, []string) {
 	}
 	hold := map[uint64]bool{2: true}
 	not2 := func(m pb.Message) bool { return m.To != 2 && m.From != 2 }
+	delayed := func(m pb.Message) bool { return m.To == 2 && m.Type == pb.Replicate }
+	// the membership change and two proposals are appended back to back: every Replicate to 2
+	// carries the old commit index; 3 receives all but the last one
 	g.nextKey++
 	g.cc(1, uint64(pb.AddNonVoting), 4)
 	g.update(1)
-	g.settleHold(not2, hold)
-	g.update(1)
-	g.apply(1, 100)
 	g.propose(1)
-	g.settleHold(not2, hold)
 	g.propose(1)
-	g.settleHold(not2, hold)
+	last := raftsim.Inspect(g.c.Nodes[1]).LastIndex
+	butLast := func(m pb.Message) bool {
+		if !not2(m) {
+			return false
+		}
+		if m.To == 3 && m.Type == pb.Replicate {
+			for _, e := range m.Entries {
+				if e.Index >= last {
+					return false
+				}
+			}
+		}
+		return true
+	}
+	g.settleHold(butLast, hold)
 	for _, k := range []uint64{1, 3} {
 		g.update(k)
 		g.apply(k, 100)
 	}
-	g.settleHold(not2, hold)
-	// everything for 2 is still in flight; the leader snapshots and compacts
-	g.snapshot(1, 2)
-	// 2 is reported unreachable: retry state; the next heartbeat response makes the leader probe
+	g.settleHold(butLast, hold)
+	g.snapshot(1, 0)
+	// from now on 3 is cut off
+	g.dropPool(func(m pb.Message) bool { return m.To == 3 || m.From == 3 })
+	// 2 is reported unreachable; the next heartbeat round makes the leader send the snapshot
 	g.do("UN 1 2")
 	g.update(1)
-	var delayed []pb.Message
-	for _, m := range g.Pool {
-		if m.To == 2 && m.Type == pb.Replicate {
-			delayed = append(delayed, m)
-		}
-	}
-	_ = delayed
-	// the delayed Replicate messages arrive first (2 appends and acknowledges, applies nothing)
-	g.settleHold(func(m pb.Message) bool { return m.To == 2 && m.Type == pb.Replicate }, hold)
-	// acknowledgements are lost; heartbeats make the leader send again: from a compacted position
-	g.dropPool(func(m pb.Message) bool { return m.From == 2 })
 	isSnap := func(m pb.Message) bool { return m.Type == pb.InstallSnapshot }
-	for i := 0; i < 6 && !g.Stopped; i++ {
+	for i := 0; i < 4 && !g.Stopped; i++ {
 		g.do("T 1")
 		g.update(1)
-		g.settleHold(func(m pb.Message) bool { return !isSnap(m) && (not2(m) || m.Type == pb.Heartbeat || m.Type == pb.HeartbeatResp) }, hold)
-		g.dropPool(func(m pb.Message) bool { return m.From == 2 && m.Type == pb.ReplicateResp })
+		g.dropPool(func(m pb.Message) bool { return m.To == 3 || m.From == 3 })
+		g.settleHold(func(m pb.Message) bool {
+			return (m.Type == pb.Heartbeat && m.To == 2) || (m.Type == pb.HeartbeatResp && m.From == 2)
+		}, hold)
+		found := false
+		for _, m := range g.Pool {
+			if isSnap(m) && m.To == 2 {
+				found = true
+			}
+		}
+		if found {
+			break
+		}
 	}
-	// whatever snapshot was sent to 2 arrives now, applied index still behind
+	// the delayed Replicate messages overtake the snapshot; their acknowledgements commit the last entry
+	g.settleHold(delayed, hold)
+	g.settleHold(func(m pb.Message) bool { return m.Type == pb.ReplicateResp && m.From == 2 }, hold)
+	g.update(1)
+	g.apply(1, 100)
+	// now the snapshot arrives at 2, whose applied index is still behind the membership change
 	g.settleHold(isSnap, hold)
-	g.settleHold(nil, hold)
+	g.do(fmt.Sprintf("U 2 1 %d", g.c.Nodes[2].Applied))
 	// the leader is gone; 2 and 3 go on
 	g.dropPool(func(m pb.Message) bool { return true })
 	t0 := g.term(2)
 	g.tickUntil(2, func() bool { return g.role(2) == 1 && g.term(2) > t0 }, 80)
 	g.settleHold(only(2, 3), hold)
+	for i := 0; i < 2 && !g.Stopped; i++ {
+		g.do("T 2")
+		g.do(fmt.Sprintf("U 2 1 %d", g.c.Nodes[2].Applied))
+		g.settleHold(only(2, 3), hold)
+	}
 	return g.c.Header(), g.ops
 }
 
